@@ -22,3 +22,16 @@ m("buf_return_after_cleanup", ["C11"], B, "                    self._cleanup_beg
 m("buf_d1_regression", ["C02", "C11"], B, "            if not message:\n                if (\n                    self.max_buffer_size_before_frontal_cleanup is not None\n                    and self.data_len > self.max_buffer_size_before_frontal_cleanup\n                ):\n                    self._cleanup_beginning()\n                    continue\n                break", "            if not message and self.max_buffer_size_before_frontal_cleanup is not None:\n                if self.data_len > self.max_buffer_size_before_frontal_cleanup:\n                    self._cleanup_beginning()\n                    continue\n                break", "the defect fixed by F01 comes back")
 m("buf_strip_data", ["C02"], B, "        self.buffer.write(data)", "        self.buffer.write(data.lstrip(' '))", "leading blanks of every piece dropped (changes text split at a blank)")
 m("buf_start_min_bug", ["C02", "C11"], B, "start = min(start, found_pos) if start is not None else found_pos", "start = max(start, found_pos) if start is not None else found_pos", "cleanup jumps to the LAST kind of known tag")
+
+R = "indi/routing/router.py"
+m("rt_no_sender_excl_dev", ["C04"], R, "if not device == sender and device.accepts(message.device):", "if device.accepts(message.device):", "message handed back to the sending device")
+m("rt_no_accepts", ["C04"], R, "if not device == sender and device.accepts(message.device):", "if not device == sender:", "every device gets every client message")
+m("rt_client_kinds_to_clients", ["C04"], R, "        if message.from_device:\n            for client in self.clients:", "        if message.from_device or message.from_client:\n            for client in self.clients:", "new*Vector / enableBLOB leak to other clients")
+m("rt_getprops_not_relayed", ["C04"], "indi/message/get_properties.py", "    from_device = True\n", "    from_device = False\n", "getProperties no longer relayed to clients")
+m("rt_isblob_wrong_class", ["C05"], R, "is_blob = isinstance(message, SetBLOBVector)", "is_blob = isinstance(message, EnableBLOB)", "F02 regression: BLOB test on the wrong class")
+m("rt_also_as_only", ["C05", "C04"], R, "                            const.BLOBEnable.NEVER,\n                            const.BLOBEnable.ALSO,\n", "                            const.BLOBEnable.NEVER,\n", "Also receives only BLOBs")
+m("rt_policy_per_client_only", ["C05"], R, "self.blob_routing[sender][message.device] = message.value", "self.blob_routing[sender] = {k: message.value for k in list(self.blob_routing[sender]) + [message.device]}", "a new enableBLOB overwrites the client's settings for all devices")
+m("rt_unregister_keeps_policy", ["C18"], R, "        if client in self.blob_routing:\n            del self.blob_routing[client]", "        pass", "policy survives unregister/re-register")
+m("rt_default_also", ["C05"], R, "DEFAULT_BLOB_POLICY = const.BLOBEnable.NEVER", "DEFAULT_BLOB_POLICY = const.BLOBEnable.ALSO", "default policy Also")
+m("rt_no_sender_excl_cli", ["C05", "C04"], R, "                if not client == sender:\n", "                if True:\n", "device message handed back to the sending client-endpoint")
+m("rt_register_resets_nothing", [], R, "        self.clients.append(client)\n        self.blob_routing[client] = {}", "        self.clients.append(client)\n        self.blob_routing.setdefault(client, {})", "equivalent unless unregister keeps policy (control)")
